@@ -352,7 +352,9 @@ func wrapInCreate(ctx context.Context, o vocab.Type, actor *url.URL) (c vocab.Ac
 				var id *url.URL
 				id, err = ToId(iter)
 				if err != nil {
-					return
+					// Names nobody (no id): nothing to address.
+					err = nil
+					continue
 				}
 				activityTo.AppendIRI(id)
 			}
@@ -366,7 +368,9 @@ func wrapInCreate(ctx context.Context, o vocab.Type, actor *url.URL) (c vocab.Ac
 				var id *url.URL
 				id, err = ToId(iter)
 				if err != nil {
-					return
+					// Names nobody (no id): nothing to address.
+					err = nil
+					continue
 				}
 				activityBto.AppendIRI(id)
 			}
@@ -380,7 +384,9 @@ func wrapInCreate(ctx context.Context, o vocab.Type, actor *url.URL) (c vocab.Ac
 				var id *url.URL
 				id, err = ToId(iter)
 				if err != nil {
-					return
+					// Names nobody (no id): nothing to address.
+					err = nil
+					continue
 				}
 				activityCc.AppendIRI(id)
 			}
@@ -394,7 +400,9 @@ func wrapInCreate(ctx context.Context, o vocab.Type, actor *url.URL) (c vocab.Ac
 				var id *url.URL
 				id, err = ToId(iter)
 				if err != nil {
-					return
+					// Names nobody (no id): nothing to address.
+					err = nil
+					continue
 				}
 				activityBcc.AppendIRI(id)
 			}
@@ -408,7 +416,9 @@ func wrapInCreate(ctx context.Context, o vocab.Type, actor *url.URL) (c vocab.Ac
 				var id *url.URL
 				id, err = ToId(iter)
 				if err != nil {
-					return
+					// Names nobody (no id): nothing to address.
+					err = nil
+					continue
 				}
 				activityAudience.AppendIRI(id)
 			}
@@ -593,7 +603,8 @@ func normalizeRecipients(a vocab.ActivityStreamsCreate) error {
 	for iter := actorTo.Begin(); iter != actorTo.End(); iter = iter.Next() {
 		id, err := ToId(iter)
 		if err != nil {
-			return err
+			// Names nobody (no id): nothing to normalize.
+			continue
 		}
 		actorToMap[id.String()] = id
 	}
@@ -607,7 +618,8 @@ func normalizeRecipients(a vocab.ActivityStreamsCreate) error {
 	for iter := actorBto.Begin(); iter != actorBto.End(); iter = iter.Next() {
 		id, err := ToId(iter)
 		if err != nil {
-			return err
+			// Names nobody (no id): nothing to normalize.
+			continue
 		}
 		actorBtoMap[id.String()] = id
 	}
@@ -621,7 +633,8 @@ func normalizeRecipients(a vocab.ActivityStreamsCreate) error {
 	for iter := actorCc.Begin(); iter != actorCc.End(); iter = iter.Next() {
 		id, err := ToId(iter)
 		if err != nil {
-			return err
+			// Names nobody (no id): nothing to normalize.
+			continue
 		}
 		actorCcMap[id.String()] = id
 	}
@@ -635,7 +648,8 @@ func normalizeRecipients(a vocab.ActivityStreamsCreate) error {
 	for iter := actorBcc.Begin(); iter != actorBcc.End(); iter = iter.Next() {
 		id, err := ToId(iter)
 		if err != nil {
-			return err
+			// Names nobody (no id): nothing to normalize.
+			continue
 		}
 		actorBccMap[id.String()] = id
 	}
@@ -649,7 +663,8 @@ func normalizeRecipients(a vocab.ActivityStreamsCreate) error {
 	for iter := actorAudience.Begin(); iter != actorAudience.End(); iter = iter.Next() {
 		id, err := ToId(iter)
 		if err != nil {
-			return err
+			// Names nobody (no id): nothing to normalize.
+			continue
 		}
 		actorAudienceMap[id.String()] = id
 	}
@@ -679,7 +694,8 @@ func normalizeRecipients(a vocab.ActivityStreamsCreate) error {
 		for iter := oTo.Begin(); iter != oTo.End(); iter = iter.Next() {
 			id, err := ToId(iter)
 			if err != nil {
-				return err
+				// Names nobody (no id): nothing to normalize.
+				continue
 			}
 			objsTo[i][id.String()] = id
 		}
@@ -698,7 +714,8 @@ func normalizeRecipients(a vocab.ActivityStreamsCreate) error {
 		for iter := oBto.Begin(); iter != oBto.End(); iter = iter.Next() {
 			id, err := ToId(iter)
 			if err != nil {
-				return err
+				// Names nobody (no id): nothing to normalize.
+				continue
 			}
 			objsBto[i][id.String()] = id
 		}
@@ -717,7 +734,8 @@ func normalizeRecipients(a vocab.ActivityStreamsCreate) error {
 		for iter := oCc.Begin(); iter != oCc.End(); iter = iter.Next() {
 			id, err := ToId(iter)
 			if err != nil {
-				return err
+				// Names nobody (no id): nothing to normalize.
+				continue
 			}
 			objsCc[i][id.String()] = id
 		}
@@ -736,7 +754,8 @@ func normalizeRecipients(a vocab.ActivityStreamsCreate) error {
 		for iter := oBcc.Begin(); iter != oBcc.End(); iter = iter.Next() {
 			id, err := ToId(iter)
 			if err != nil {
-				return err
+				// Names nobody (no id): nothing to normalize.
+				continue
 			}
 			objsBcc[i][id.String()] = id
 		}
@@ -755,7 +774,8 @@ func normalizeRecipients(a vocab.ActivityStreamsCreate) error {
 		for iter := oAudience.Begin(); iter != oAudience.End(); iter = iter.Next() {
 			id, err := ToId(iter)
 			if err != nil {
-				return err
+				// Names nobody (no id): nothing to normalize.
+				continue
 			}
 			objsAudience[i][id.String()] = id
 		}
